@@ -55,13 +55,27 @@ def _iter_elem(t):
 
 
 class Norm:
-    def __init__(self, rename=None, field_map=None, drop_casts=True, arg_map=None, method_fields=(), param_index_as_field=None):
+    def __init__(self, rename=None, field_map=None, drop_casts=True, arg_map=None, method_fields=(), param_index_as_field=None, const_values=False):
+        self.const_values = const_values
         self.rename = rename or {}
         self.field_map = field_map or {}
         self.drop_casts = drop_casts
         self.arg_map = arg_map or {}
         self.method_fields = set(method_fields)
         self.param_index_as_field = param_index_as_field or {}
+
+    def _fold(self, t):
+        while t[0] == "cast":
+            t = t[1]
+        if t[0] == "const" and isinstance(t[1], int) and not isinstance(t[1], bool):
+            return t[1]
+        if t[0] == "bin":
+            base = t[1].replace("WithOverflow", "").replace("Unchecked", "")
+            if base in ("Add", "Sub", "Mul"):
+                a, b = self._fold(t[2]), self._fold(t[3])
+                if a is not None and b is not None:
+                    return a + b if base == "Add" else a - b if base == "Sub" else a * b
+        return None
 
     def s(self, t):
         k = t[0]
@@ -85,6 +99,8 @@ class Norm:
         if k == "var":
             return "$" + t[1]
         if k == "const":
+            if isinstance(t[1], int) and not isinstance(t[1], bool) and t[3] not in ("bool",) and self.const_values:
+                return str(t[1])       # an integer constant is its value, whatever it is called
             if t[2]:
                 return t[2].split("<")[0].rsplit("::", 1)[-1]
             return repr(t[1]) if not isinstance(t[1], int) else str(t[1])
@@ -105,6 +121,18 @@ class Norm:
             return "%s(%s)" % (fname(t[1], self.rename), ", ".join(self.s(a) for a in t[2]))
         if k == "bin":
             op = t[1]
+            if self.const_values:
+                # literal arithmetic is folded (a product of three named constants on one side, its value on the other)
+                x, y = t[2], t[3]
+                while x[0] == "cast":
+                    x = x[1]
+                while y[0] == "cast":
+                    y = y[1]
+                fx = self._fold(x)
+                fy = self._fold(y)
+                base = op.replace("WithOverflow", "").replace("Unchecked", "")
+                if fx is not None and fy is not None and base in ("Add", "Sub", "Mul"):
+                    return str(fx + fy if base == "Add" else fx - fy if base == "Sub" else fx * fy)
             a, b = self.s(t[2]), self.s(t[3])
             if op in ("Gt", "Ge"):
                 op = {"Gt": "Lt", "Ge": "Le"}[op]
@@ -269,6 +297,10 @@ def summary(fn, norm, calls_pred=None, ctx=None):
                     if inner[0] == "q" and strip(inner)[0] == "call":
                         inner = inner[1]
                     emit(prefix, inner, depth)
+                    return
+                if sx[0] == "tuple" and depth < 3 and sx[1]:
+                    for i, y in enumerate(sx[1]):
+                        emit("%s.%d" % (prefix, i), y, depth + 1)
                     return
                 if sx[0] == "agg" and depth < 3 and sx[3]:
                     ty = TYPE_MAP.get(sx[1].rsplit("::", 1)[-1], sx[1].rsplit("::", 1)[-1])
